@@ -212,12 +212,13 @@ def _gen_send(rng, tier):
         k = rng.random()
         n = rng.choice([0, 1, 2, 3, 5, 9, 17, 50]) if rng.random() < 0.8 else rng.randint(0, 300)
         data = bytes(rng.randrange(256) for _ in range(n)).hex()
+        kind = [rng.choice(['bytearray', 'memoryview'])] if rng.random() < 0.1 else []
         if k < 0.35:
-            ops.append(['send', data])
+            ops.append(['send', data] + kind)
         elif k < 0.55:
-            ops.append(['sendall', data])
+            ops.append(['sendall', data] + kind)
         elif k < 0.85:
-            ops.append(['buffer', data])
+            ops.append(['buffer', data] + kind)
         else:
             ops.append(['flush'])
     sndbuf = rng.choice([1, 2, 4, 16, 64, 1 << 30])
@@ -584,6 +585,10 @@ def _run_send(case):
         if op[0] != 'flush':
             data = bytes.fromhex(op[1])
             handed.extend(data)
+            if len(op) > 2 and op[2] == 'bytearray':
+                data = bytearray(data)          # any bytes-like object is sendable on a real socket
+            elif len(op) > 2 and op[2] == 'memoryview':
+                data = memoryview(data)
         ps = sock.partial_sends
         try:
             if op[0] == 'send':
